@@ -139,6 +139,10 @@ class Observer:
         self.fuzz_fail = []
         self.fuzz_runs = 0
         self.samples = {}
+        self.elim = []
+        self.elim_fail = []
+        self.cur_pass = None
+        self.cur_sample = None
         self.max_insts = max_insts
         self.skipped_big = 0
         self.calls = 0
@@ -157,10 +161,58 @@ class Observer:
                 obs.samples.setdefault("__errors__", []).append(repr(e))
 
         VariableRangeAnalysis.analyze = analyze
+        from vyper.venom.passes.assert_elimination import AssertEliminationPass
+        from vyper.venom.passes.overflow_elimination import OverflowEliminationPass
+        self.pass_orig = []
+        for cls_, nm in ((AssertEliminationPass, "AssertEliminationPass"), (OverflowEliminationPass, "OverflowEliminationPass")):
+            orig_run = cls_.run_pass
+            self.pass_orig.append((cls_, orig_run))
+
+            def run_pass(self_, *a, _orig=orig_run, _nm=nm, **k):
+                obs.cur_pass, obs.cur_sample = _nm, None
+                asserts = {}
+                try:
+                    for bb in self_.function.get_basic_blocks():
+                        for i in bb.instructions:
+                            if i.opcode == "assert" and len(i.operands) == 1:
+                                asserts[i] = i.operands[0]
+                except Exception:
+                    pass
+                try:
+                    r = _orig(self_, *a, **k)
+                finally:
+                    obs.cur_pass = None
+                try:
+                    obs.after_pass(self_, _nm, r, asserts)
+                except Exception as e:
+                    obs.samples.setdefault("__errors__", []).append("after_pass: " + repr(e))
+                return r
+            cls_.run_pass = run_pass
         return self
 
     def __exit__(self, *a):
         self.cls.analyze = self.orig
+        for cls_, orig_run in self.pass_orig:
+            cls_.run_pass = orig_run
+
+    def after_pass(self, pass_obj, name, changes, asserts):
+        cs = self.cur_sample
+        self.cur_sample = None
+        if cs is None or not changes:
+            return
+        ex, ftxt, E, an = cs
+        after = ex.func()
+        deleted = {i: o for i, o in asserts.items() if i.opcode == "nop"}
+        if self.rnd is not None and len(self.elim_fail) < 3:
+            r = fuzz(an, self.rnd, self.fuzz_paths, ghost=deleted)
+            if r is not None:
+                r["pass"] = name
+                self.elim_fail.append(r)
+        key = hashlib.sha256((ftxt + after).encode()).hexdigest()[:16]
+        if any(e_["key"] == key for e_ in self.elim):
+            return
+        self.elim.append(dict(key=key, name=ex.name, func=ftxt, E=E, after=after, pass_name=name, deleted=len(deleted),
+                              ninsts=ex.ninsts, text=str(pass_obj.function)))
 
     def record(self, an):
         self.calls += 1
@@ -180,6 +232,8 @@ class Observer:
             # unreachable blocks were never visited: the analysis has no state for them
             E = [e if e is not None else "[]" for e in E]
             X = [x for x in X]
+        if self.cur_pass is not None:
+            self.cur_sample = (ex, ftxt, E, an)
         unvisited = [i for i, x in enumerate(X) if x is None]
         h = ex.inst_env_hash() if not unvisited else None
         key = hashlib.sha256((ftxt + "|".join(E)).encode()).hexdigest()[:16]
@@ -219,7 +273,7 @@ def _in_range(w, r):
     return any(r.lo <= v <= r.hi for v in (w, w - W256))
 
 
-def fuzz(an, rnd, paths=4, max_steps=300):
+def fuzz(an, rnd, paths=4, max_steps=300, ghost=None):
     """Execute the function on random inputs (pure opcodes by the real eval_arith, everything else returns random /
     boundary words) and test the property itself: every variable's word lies in the range the analysis reports
     before each instruction.  Returns a dict describing the first failure, or None."""
@@ -254,7 +308,13 @@ def fuzz(an, rnd, paths=4, max_steps=300):
                 if i.opcode == "phi":
                     continue
                 steps += 1
-                st = an._inst_entry_env.get(i)
+                if ghost is not None and i in ghost:
+                    o = ghost[i]
+                    gv = (o.value % W256) if isinstance(o, IRLiteral) else env.get(o)
+                    if gv == 0:
+                        return {"function": str(fn), "block": bb.label.value, "deleted_assert_operand": str(o),
+                                "value": "0x0", "trace": trace[-40:]}
+                st = an._inst_entry_env.get(i) if ghost is None else None
                 if st is not None:
                     for var, r in st.items():
                         if var in env and not _in_range(env[var], r):
@@ -296,3 +356,15 @@ def fuzz(an, rnd, paths=4, max_steps=300):
                     trace.append(f"{outs[0]} = {op} -> {hex(res)}")
             pred, bb = bb, nxt
     return None
+
+
+def evaluate_elim(samples, name="c14elim", shard=6, timeout=600):
+    """Per pass invocation: [elim_check ok]."""
+    imports = ("From Coq Require Import NArith.\nFrom Verif Require Import Base.PyInt C14.RangeBase C14.RangeFix C14.RangeElim.\n"
+               "Open Scope string_scope.\nOpen Scope Z_scope.\n")
+    exprs = []
+    for s in samples:
+        E = "[" + ";\n ".join(s["E"]) + "]"
+        exprs.append(f"let f : func := {s['func']} in let E : list aenv := {E} in let g : func := {s['after']} in "
+                     "[if elim_check f E g then 1 else 0; if check f E then 1 else 0]")
+    return coqrun.eval_zlists(imports, exprs, name, shard=shard, timeout=timeout)
